@@ -6,12 +6,18 @@ PID = "C15"
 MODULI = [progs.BN, progs.BLS, 65537, 251, 61]
 
 
+FIXED = []
+
+
 def casegen(rnd):
+    if FIXED: return FIXED.pop()
     return arraygen.gen_case(rnd, MODULI)
 
 
 def variants(case, rnd):
     """same program, other index values (the constraints must be identical for every index value)"""
+    if case.get("alt_ins"):
+        return [dict(copy.deepcopy(case), ins=i) for i in case["alt_ins"]]
     v = copy.deepcopy(case)
     v["ins"] = [rnd.randrange(0, 4) if 0 <= x < 4 else x for x in case["ins"]]
     # error checking off and an index outside every array: the accesses must leave the constraint system unsatisfiable
@@ -59,6 +65,7 @@ def oracle(case, rec, group):
     at = dict((pc, iv) for pc, iv in rec["vals"])
     pc_of = {s[1]: i + 1 for i, s in enumerate(case["prog"]) if s[0] == "arrget"}
     for r, w in want.items():
+        if case.get("fixed"): break          # statement numbers of nested programs differ from the top-level positions: shape / errors / satisfaction only
         if pc_of.get(r) not in at: continue
         g = val_of(at[pc_of[r]])
         if g != w:
@@ -76,7 +83,8 @@ def oracle(case, rec, group):
 
 
 def run(tier, seed):
-    return tracecheck.run(PID, tier, seed, {}, oracle, n_quick=300, n_thorough=5000, variants=variants, casegen=casegen,
+    FIXED[:] = arraygen.fixed_cases(progs.BN)
+    return tracecheck.run(PID, tier, seed, {}, oracle, n_quick=300 + 7 * len(FIXED), n_thorough=5000, variants=variants, casegen=casegen,
                           mask=1 | 2 | 4 | 8, shrink_budget=6)
 
 
